@@ -2993,18 +2993,58 @@ func (c S3ApiController) DeleteObjects(ctx *fiber.Ctx) error {
 			})
 	}
 
-	err = auth.VerifyAccess(ctx.Context(), c.be,
-		auth.AccessOptions{
-			Readonly:      c.readonly,
-			Acl:           parsedAcl,
-			AclPermission: auth.PermissionWrite,
-			IsRoot:        isRoot,
-			Acc:           acct,
-			Bucket:        bucket,
-			Action:        auth.DeleteObjectAction,
-		})
-	if err != nil {
-		return SendResponse(ctx, err,
+	// the access decision is taken per key: the keys the caller may not
+	// delete are reported as errors and left alone
+	allowed := make([]types.ObjectIdentifier, 0, len(dObj.Objects))
+	var denied []types.Error
+	var accessErr error
+	if len(dObj.Objects) == 0 {
+		accessErr = auth.VerifyAccess(ctx.Context(), c.be,
+			auth.AccessOptions{
+				Readonly:      c.readonly,
+				Acl:           parsedAcl,
+				AclPermission: auth.PermissionWrite,
+				IsRoot:        isRoot,
+				Acc:           acct,
+				Bucket:        bucket,
+				Action:        auth.DeleteObjectAction,
+			})
+	}
+	for _, obj := range dObj.Objects {
+		key := ""
+		if obj.Key != nil {
+			key = *obj.Key
+		}
+		err = auth.VerifyAccess(ctx.Context(), c.be,
+			auth.AccessOptions{
+				Readonly:      c.readonly,
+				Acl:           parsedAcl,
+				AclPermission: auth.PermissionWrite,
+				IsRoot:        isRoot,
+				Acc:           acct,
+				Bucket:        bucket,
+				Object:        key,
+				Action:        auth.DeleteObjectAction,
+			})
+		if err != nil {
+			apiErr, ok := err.(s3err.APIError)
+			if !ok {
+				accessErr = err
+				break
+			}
+			accessErr = apiErr
+			denied = append(denied, types.Error{
+				Key:       obj.Key,
+				VersionId: obj.VersionId,
+				Code:      &apiErr.Code,
+				Message:   &apiErr.Description,
+			})
+			continue
+		}
+		allowed = append(allowed, obj)
+	}
+	if accessErr != nil && len(allowed) == 0 {
+		return SendResponse(ctx, accessErr,
 			&MetaOpts{
 				Logger:      c.logger,
 				MetricsMng:  c.mm,
@@ -3012,6 +3052,7 @@ func (c S3ApiController) DeleteObjects(ctx *fiber.Ctx) error {
 				BucketOwner: parsedAcl.Owner,
 			})
 	}
+	dObj.Objects = allowed
 
 	// The AWS CLI sends 'True', while Go SDK sends 'true'
 	bypass := strings.EqualFold(bypassHdr, "true")
@@ -3034,6 +3075,7 @@ func (c S3ApiController) DeleteObjects(ctx *fiber.Ctx) error {
 				Objects: dObj.Objects,
 			},
 		})
+	res.Error = append(res.Error, denied...)
 	return SendXMLResponse(ctx, res, err,
 		&MetaOpts{
 			Logger:      c.logger,
